@@ -21,9 +21,18 @@ package main
 //   iter S P START LIMIT SCRIPT     SCRIPT = comma separated steps: n (Next) | s<hex> (Seek) | a (Next until false)
 //   iterp S P PREFIX SCRIPT         the same on bucket.NewIterator(db.BytesPrefix(PREFIX))
 //
+//   meta  S M P            register M := <navigate P>.GetBucketMeta()           -> ok | nobucket
+//   fetch S H M            register H := tx.FetchBucket(meta M) (nil clears H)  -> yes | no
+//   keep  S H P            register H := <navigate P>           (nil clears H)  -> yes | no
+//   via H <data op line>   the data op through the KEPT bucket handle H of the op's slot; its path is
+//                          relative to the handle ("/" = the handle itself)
+//   dead <data op line>    the data op (slot token r) through the read transaction ended last (after Rollback)
+//   deadvia H <data op line>   … through bucket handle H of that ended read transaction
+//
 // S = w|r (transaction slot), P = "/" (transaction level) or hex bucket names joined by "/",
-// K/V/START/LIMIT hex ("-" = empty).  Every data op navigates from the transaction again (no
-// bucket handle survives an op).
+// K/V/START/LIMIT hex ("-" = empty).  Every plain data op navigates from the transaction again;
+// bucket handles survive only in the registers of keep / fetch (per transaction), BucketMeta
+// objects in the registers of meta (per history).
 //
 // Canonicalisation: errors -> err:<enum>; a nil bucket -> nobucket; results whose order comes
 // from a Go map iteration (prefix / names inside a WRITE transaction) are sorted, everything read
@@ -54,6 +63,7 @@ func init() {
 var errKvSentinel = errors.New("kv harness: closure asks for rollback")
 
 type kvWrite struct {
+	regs  map[int]db.Bucket
 	tx    db.DBTransaction
 	style string // "w" direct, "u" inside db.Update
 	fin   chan error
@@ -61,6 +71,7 @@ type kvWrite struct {
 }
 
 type kvRead struct {
+	regs  map[int]db.Bucket
 	tx    db.ReadTransaction
 	style string // "r" direct, "v" inside db.View
 	fin   chan error
@@ -74,6 +85,8 @@ type kvExec struct {
 	w       *kvWrite
 	r       *kvRead
 	probes  []chan struct{}
+	metas   map[int]db.BucketMeta // BucketMeta objects kept by the caller (they outlive transactions)
+	dead    *kvRead               // the read transaction ended last: its handle and bucket handles, still held
 	resets  int
 	opsOnDB int
 }
@@ -141,6 +154,7 @@ func (x *kvExec) endWrite(commit bool) string {
 func (x *kvExec) endRead() string {
 	r := x.r
 	x.r = nil
+	x.dead = r
 	if r.style == "r" {
 		return kvErr(r.tx.Rollback())
 	}
@@ -173,6 +187,8 @@ func (x *kvExec) shutdown() {
 // 128 MiB memtable, and iterators slow down skipping them.
 func (x *kvExec) Reset() {
 	x.resets++
+	x.metas = nil
+	defer func() { x.dead = nil }()
 	if x.d == nil || x.resets%64 == 0 || x.opsOnDB > 3000 {
 		x.shutdown()
 		return
@@ -236,6 +252,8 @@ func kvErr(err error) string {
 		return "err:write-not-allowed"
 	case db.ErrInvalidArgument:
 		return "err:invalid-argument"
+	case leveldb.ErrSnapshotReleased:
+		return "err:released"
 	}
 	return "err:other"
 }
@@ -346,7 +364,7 @@ func kvIterRange(b db.Bucket, rg *db.Range, script string) string {
 		}
 	}
 	if err := it.Error(); err != nil {
-		return "err:other"
+		return kvErr(err)
 	}
 	return strings.Join(out, " ")
 }
@@ -487,13 +505,13 @@ func (x *kvExec) Exec(a []string) string {
 			if err != nil {
 				return kvErr(err)
 			}
-			x.w = &kvWrite{tx: tx, style: "w"}
+			x.w = &kvWrite{tx: tx, style: "w", regs: map[int]db.Bucket{}}
 			return "ok"
 		case "u":
 			if x.w != nil {
 				return "bad-op"
 			}
-			w := &kvWrite{style: "u", fin: make(chan error), res: make(chan error, 1)}
+			w := &kvWrite{style: "u", regs: map[int]db.Bucket{}, fin: make(chan error), res: make(chan error, 1)}
 			txc := make(chan db.DBTransaction)
 			d := x.d
 			go func() {
@@ -522,13 +540,13 @@ func (x *kvExec) Exec(a []string) string {
 			if err != nil {
 				return kvErr(err)
 			}
-			x.r = &kvRead{tx: tx, style: "r"}
+			x.r = &kvRead{tx: tx, style: "r", regs: map[int]db.Bucket{}}
 			return "ok"
 		case "v":
 			if x.r != nil {
 				return "bad-op"
 			}
-			r := &kvRead{style: "v", fin: make(chan error), res: make(chan error, 1)}
+			r := &kvRead{style: "v", regs: map[int]db.Bucket{}, fin: make(chan error), res: make(chan error, 1)}
 			txc := make(chan db.ReadTransaction)
 			d := x.d
 			go func() {
@@ -622,25 +640,150 @@ func (x *kvExec) Exec(a []string) string {
 		x.d = d
 		return "ok"
 	}
+	// ops on kept handles
+	switch a[0] {
+	case "via", "deadvia":
+		if len(a) < 5 {
+			return "bad-op"
+		}
+		h, err := strconv.Atoi(a[1])
+		if err != nil {
+			return "bad-op"
+		}
+		if a[0] == "deadvia" {
+			if a[3] != "r" {
+				return "bad-op"
+			}
+			if x.dead == nil {
+				return "no-tx"
+			}
+			hb, ok := x.dead.regs[h]
+			if !ok {
+				return "nobucket"
+			}
+			return x.dataOp(a[2:], x.dead.tx, false, hb)
+		}
+		rt, regs, write, st := x.slot(a[3])
+		if st != "" {
+			return st
+		}
+		hb, ok := regs[h]
+		if !ok {
+			return "nobucket"
+		}
+		return x.dataOp(a[2:], rt, write, hb)
+	case "dead":
+		if len(a) < 4 || a[2] != "r" {
+			return "bad-op"
+		}
+		if x.dead == nil {
+			return "no-tx"
+		}
+		return x.dataOp(a[1:], x.dead.tx, false, nil)
+	case "meta", "fetch", "keep":
+		if len(a) != 4 {
+			return "bad-op"
+		}
+		rt, regs, _, st := x.slot(a[1])
+		if st != "" {
+			return st
+		}
+		n, err := strconv.Atoi(a[2])
+		if err != nil {
+			return "bad-op"
+		}
+		switch a[0] {
+		case "meta":
+			names, ok := kvParsePath(a[3])
+			if !ok {
+				return "bad-op"
+			}
+			b := kvNav(rt, names)
+			if b == nil {
+				return "nobucket"
+			}
+			if x.metas == nil {
+				x.metas = map[int]db.BucketMeta{}
+			}
+			x.metas[n] = b.GetBucketMeta()
+			return "ok"
+		case "keep":
+			names, ok := kvParsePath(a[3])
+			if !ok {
+				return "bad-op"
+			}
+			b := kvNav(rt, names)
+			if b == nil {
+				delete(regs, n)
+				return "no"
+			}
+			regs[n] = b
+			return "yes"
+		default:
+			mi, err := strconv.Atoi(a[3])
+			if err != nil {
+				return "bad-op"
+			}
+			m, ok := x.metas[mi]
+			if !ok {
+				return "bad-op"
+			}
+			b := rt.FetchBucket(m)
+			if b == nil {
+				delete(regs, n)
+				return "no"
+			}
+			regs[n] = b
+			return "yes"
+		}
+	}
 	// data ops
 	if len(a) < 3 {
 		return "bad-op"
 	}
-	var rt db.ReadTransaction
-	write := false
-	switch a[1] {
+	rt, _, write, st := x.slot(a[1])
+	if st != "" {
+		return st
+	}
+	return x.dataOp(a, rt, write, nil)
+}
+
+// slot resolves a transaction slot token: the transaction, its handle registers, whether it is the writer.
+func (x *kvExec) slot(tok string) (db.ReadTransaction, map[int]db.Bucket, bool, string) {
+	switch tok {
 	case "w":
 		if x.w == nil {
-			return "no-tx"
+			return nil, nil, false, "no-tx"
 		}
-		rt, write = x.w.tx, true
+		return x.w.tx, x.w.regs, true, ""
 	case "r":
 		if x.r == nil {
-			return "no-tx"
+			return nil, nil, false, "no-tx"
 		}
-		rt = x.r.tx
-	default:
+		return x.r.tx, x.r.regs, false, ""
+	}
+	return nil, nil, false, "bad-op"
+}
+
+// dataOp runs one data op line a = [op, slot, path, …] in transaction rt.  With root == nil the
+// path is navigated from the transaction; otherwise it is relative to the kept bucket handle root
+// (no lookup at all for the empty path: the method is called on the handle as it is).
+func (x *kvExec) dataOp(a []string, rt db.ReadTransaction, write bool, root db.Bucket) string {
+	if len(a) < 3 {
 		return "bad-op"
+	}
+	nav := func(names []string) db.Bucket {
+		if root == nil {
+			return kvNav(rt, names)
+		}
+		b := root
+		for _, n := range names {
+			if b == nil {
+				return nil
+			}
+			b = b.Bucket(n)
+		}
+		return b
 	}
 	names, ok := kvParsePath(a[2])
 	if !ok {
@@ -658,7 +801,7 @@ func (x *kvExec) Exec(a []string) string {
 			return "bad-op"
 		}
 		last := names[len(names)-1]
-		if len(names) == 1 {
+		if len(names) == 1 && root == nil {
 			wt, ok := rt.(db.DBTransaction) // the driver's transaction type serves both interfaces
 			if !ok {
 				return "err:write-not-allowed"
@@ -669,7 +812,7 @@ func (x *kvExec) Exec(a []string) string {
 			}
 			return kvErr(wt.DeleteTopLevelBucket(last))
 		}
-		p := kvNav(rt, names[:len(names)-1])
+		p := nav(names[:len(names)-1])
 		if p == nil {
 			return "nobucket"
 		}
@@ -679,10 +822,10 @@ func (x *kvExec) Exec(a []string) string {
 		}
 		return kvErr(p.DeleteBucket(last))
 	case "has":
-		if len(a) != 3 || len(names) == 0 {
+		if len(a) != 3 || (len(names) == 0 && root == nil) {
 			return "bad-op"
 		}
-		if kvNav(rt, names) == nil {
+		if nav(names) == nil {
 			return "no"
 		}
 		return "yes"
@@ -701,10 +844,10 @@ func (x *kvExec) Exec(a []string) string {
 		}
 		var ns []string
 		var err error
-		if len(names) == 0 {
+		if len(names) == 0 && root == nil {
 			ns, err = rt.BucketNames()
 		} else {
-			b := kvNav(rt, names)
+			b := nav(names)
 			if b == nil {
 				return "nobucket"
 			}
@@ -715,10 +858,10 @@ func (x *kvExec) Exec(a []string) string {
 		}
 		return kvNames(ns, write)
 	}
-	if len(names) == 0 {
+	if len(names) == 0 && root == nil {
 		return "bad-op"
 	}
-	b := kvNav(rt, names)
+	b := nav(names)
 	if b == nil {
 		return "nobucket"
 	}
